@@ -136,14 +136,46 @@ def run(tier, seed):
         name = "helper%d" % rng.randint(1000, 9999)
         macro = rng.choice(["(define-syntax call-it (syntax-rules () ((call-it a) (%s a))))" % name,
                             "(define-syntax get-it\n  (syntax-rules ()\n    ((get-it a b ...)\n     (list a\n       %s b ...))))" % name,
-                            "(define-syntax twice-it (syntax-rules () ((twice-it a) (begin a (%s) a))))" % name])
-        use = {"call-it": "(call-it 1)", "get-it": "(get-it 1 2 3)", "twice-it": "(twice-it (list 1))"}[macro.split()[1]]
+                            "(define-syntax twice-it (syntax-rules () ((twice-it a) (begin a (%s) a))))" % name,
+                            # the helper is mentioned in a sub-template that is repeated, and first reached in a later repetition
+                            "(define-syntax each-it\n  (syntax-rules ()\n    ((each-it (ok val) ...)\n     (list (if ok val (%s 'val)) ...))))" % name,
+                            "(define-syntax all-it (syntax-rules () ((all-it a ...) (begin (if a 'fine (%s)) ...))))" % name,
+                            "(define-syntax third-it (syntax-rules () ((third-it (a b) ...) (vector (and a (b %s)) ...))))" % name,
+                            # the macro use is a definition whose value expression is built from the template
+                            "(define-syntax def-it (syntax-rules () ((def-it n v) (define n (%s v)))))" % name,
+                            "(define-syntax def2-it\n  (syntax-rules ()\n    ((def2-it n v ...)\n     (define n\n       (list v ... %s)))))" % name])
+        use = {"call-it": "(call-it 1)", "get-it": "(get-it 1 2 3)", "twice-it": "(twice-it (list 1))", "each-it": "(each-it (#t 1) (#t 2) (#f 3))", "all-it": "(all-it #t 1 #f)",
+               "third-it": "(third-it (#f car) (1 list) (2 list))", "def-it": "(def-it zz 7)", "def2-it": "(def2-it zz 1 2)"}[macro.split()[1]]
+        if macro.split()[1] in ("def-it", "def2-it"):
+            # a definition stays a top-level form
+            pre = ["(define filler%d %d)" % (i, i) for i in range(rng.choice([0, 2, 9, 40]))]
+            pos = rng.randrange(len(pre) + 1)
+            forms_t = pre[:pos] + [macro] + pre[pos:] + [use]
+            text = "\n".join(forms_t) + rng.choice(["", "\n"])
+            cases.append({"fault": "template-identifier", "context": "user-macro-definition", "text": text, "nforms": len(forms_t), "offender": None, "ndefs": 0})
+            continue
         use = rng.choice(["%s", "(list 1\n  %s)", "(car (list %s))", "(if #t\n    %s\n    0)"]) % use
         pre = ["(define filler%d %d)" % (i, i) for i in range(rng.choice([0, 2, 9, 40]))]
         pos = rng.randrange(len(pre) + 1)
         forms_t = pre[:pos] + [macro] + pre[pos:] + [use]
         text = "\n".join(forms_t) + rng.choice(["", "\n"])
         cases.append({"fault": "template-identifier", "context": "user-macro", "text": text, "nforms": len(forms_t), "offender": None, "ndefs": 0})
+    # builtin faults (no identifier to point at) raised by an expression that a user macro's template builds, as the value of a definition,
+    # as a repeated sub-template, or as a plain expression: the location must still fall into the failing form
+    for k in range(per_cell * 2):
+        fault_e, arg = rng.choice([("(car v)", "7"), ("(vector-ref v 10)", "(vector 1 2)"), ("(/ 5 v)", "0"), ("(+ v 'a)", "1"), ("(vector-set! v 0 1)", "'#(1 2)"),
+                                   ("(v 1)", "5"), ("(cdr (cdr v))", "'(1)"), ("(f2 v)", "1")])
+        macro, use = rng.choice([
+            ("(define-syntax def-bad (syntax-rules () ((def-bad n v) (define n %s))))" % fault_e, "(def-bad zz %s)" % arg),
+            ("(define-syntax def-bad\n  (syntax-rules ()\n    ((def-bad n v)\n     (define n\n        (list 1 %s)))))" % fault_e, "(def-bad zz %s)" % arg),
+            ("(define-syntax each-bad (syntax-rules () ((each-bad (ok v) ...) (list (if ok 'fine %s) ...))))" % fault_e, "(each-bad (#t 1) (#t 2) (#f %s))" % arg),
+            ("(define-syntax run-bad (syntax-rules () ((run-bad v) (begin 1 %s))))" % fault_e, "(run-bad %s)" % arg),
+            ("(define-syntax set-bad (syntax-rules () ((set-bad n v) (begin (define n 0) (set! n %s)))))" % fault_e, "(set-bad zz %s)" % arg)])
+        pre = ["(define (f2 a b) (+ a b))"] + ["(define filler%d %d)" % (i, i) for i in range(rng.choice([0, 2, 9, 40]))]
+        pos = rng.randrange(1, len(pre) + 1)
+        forms_t = pre[:pos] + [macro] + pre[pos:] + [use]
+        text = "\n".join(forms_t) + rng.choice(["", "\n"])
+        cases.append({"fault": "builtin-fault-in-template", "context": macro.split()[1], "text": text, "nforms": len(forms_t), "offender": None, "ndefs": 0})
     # an unbound identifier that is itself an operand of a macro use (the expansion IS the user's identifier): it keeps its own location
     for k in range(per_cell * 2):
         name = "nosuch%d" % rng.randint(1000, 9999)
